@@ -44,6 +44,13 @@ BODIES = {
     "pragma-no-charset": (b'<meta http-equiv=content-type content="text/html"><p>' + TEXT, None, None),
     "late-koi8": (FILL + b"<meta charset=koi8-r><p>" + TEXT, None, "koi8-r"),
     "late-bogus": (FILL + b"<meta charset=bogus><p>" + TEXT, None, None),
+    # several declarations met by tree construction: the first usable one decides (it either changes the encoding or
+    # confirms the tentative one - both make it certain), later ones are ignored
+    "early-then-conflict": (b"<meta charset=windows-1251><meta charset=koi8-r><p>" + TEXT, "windows-1251", ("windows-1251", "koi8-r")),
+    "late-koi8-then-1251": (FILL + b"<meta charset=koi8-r><meta charset=windows-1251><p>" + TEXT, None, ("koi8-r", "windows-1251")),
+    "late-latin2-pragma-then-koi8": (FILL + b"<meta http-equiv=content-type content='text/html; charset=iso-8859-2'><meta charset=koi8-r><p>" + TEXT,
+                                     None, ("iso-8859-2", "koi8-r")),
+    "late-bogus-then-koi8": (FILL + b"<meta charset=bogus><meta charset=koi8-r><p>" + TEXT, None, ("bogus", "koi8-r")),
 }
 
 
@@ -76,11 +83,12 @@ def expected_encoding(args, bom, body):
     # tree construction meets a <meta> while the encoding is tentative (only if the tentative decoding is
     # ASCII-compatible, otherwise the markup is not there)
     if late is not None and not tentative.startswith("utf-16"):
-        new = refp.get_encoding(late)
-        if new is not None:
-            if new in ("utf-16le", "utf-16be"):
-                new = "utf-8"
-            return new, True, "meta-in-tree"
+        for label in ((late,) if isinstance(late, str) else late):
+            new = refp.get_encoding(label)
+            if new is not None:
+                if new in ("utf-16le", "utf-16be"):
+                    new = "utf-8"
+                return new, True, "meta-in-tree"
     return tentative, False, "tentative"
 
 
